@@ -1,6 +1,6 @@
 (* C06 — gradients of eigenpairs and singular triplets are exact, incl. degeneracy. *)
 From mathcomp Require Import all_ssreflect all_algebra.
-From XV Require Import Base.Deriv Base.MxDeriv Proofs.SymeigBackward.
+From XV Require Import Base.Deriv Base.MxDeriv Proofs.SymeigBackward Proofs.SymeigDense.
 Import GRing.Theory.
 Local Open Scope ring_scope.
 
@@ -42,3 +42,20 @@ Theorem C06_eigpair_backward_adjoint : forall (R : comRingType) (D : derivation 
   dot g (dmx D x) + ge * D e = dot accA (dmx D A *m x) + dot accM (dmx D M *m x).
 Proof. move=> R D n A M x e HA HM He Hn half Hh g v ge Hs; exact: (eigpair_backward_adjoint D HA HM He Hn Hh ge Hs). Qed.
 Print Assumptions C06_eigpair_backward_adjoint.
+
+(* T4: the dense path (degen_symeig.backward), full spectrum with pairwise distinct eigenvalues, real symmetric case:
+   with W = Y^T G, F_ij = 1/(e_j - e_i) off the diagonal and 0 on it, R = Y (F o W) Y^T + Y diag(ge) Y^T, the
+   symmetrised result (R + R^T)/2 - exactly the code - reproduces <G, dY> + sum_i ge_i de_i for EVERY symmetric
+   tangent dA (any size, any field with a derivation and 1/2).  The masked entries of the code (|e_j - e_i| below the
+   threshold) are the diagonal ones here; exact degeneracies are covered by the model correspondence and the oracle *)
+Theorem C06_dense_backward_adjoint : forall (F : fieldType) (D : derivation F) n (A Y : 'M[F]_n) (e : 'rV[F]_n),
+  A^T = A -> Y^T *m Y = 1%:M -> Y *m Y^T = 1%:M -> A *m Y = Y *m diag_mx e ->
+  (forall i j, i != j -> e 0 i != e 0 j) ->
+  forall half : F, half + half = 1 ->
+  forall (G : 'M[F]_n) (ge : 'rV[F]_n),
+  let Fm : 'M[F]_n := \matrix_(i, j) (if i == j then 0 else (e 0 j - e 0 i)^-1) in
+  let FW : 'M[F]_n := \matrix_(i, j) (Fm i j * (Y^T *m G) i j) in
+  let R := Y *m FW *m Y^T + Y *m diag_mx ge *m Y^T in
+  \tr (G^T *m dmx D Y) + \sum_i ge 0 i * D (e 0 i) = \tr ((half *: (R + R^T))^T *m dmx D A).
+Proof. move=> F D n A Y e HA H1 H2 He Hd half Hh G ge /=; exact: (degen_symeig_backward_adjoint D HA H1 H2 He Hd Hh). Qed.
+Print Assumptions C06_dense_backward_adjoint.
